@@ -1,0 +1,15 @@
+//go:build verif
+// +build verif
+
+package nodemap
+
+// VerifBudget returns the remaining traversal budget of the cached schema message that
+// holds node id (read-only; for the verification harness in /verif). ok is false if the
+// node has not been loaded.
+func (m *Map) VerifBudget(id uint64) (budget uint64, ok bool) {
+	n := m.nodes[id]
+	if !n.IsValid() {
+		return 0, false
+	}
+	return n.Message().VerifReadLimit(), true
+}
